@@ -48,7 +48,7 @@ type FakeReg struct {
 	srvs      []*http.Server
 	// crash hooks (C12): called with the lock released
 	OnRequest func(kind string, n int)
-	OnPath    func(kind, path string) // may block: holds the request (C03 overlapping pulls)
+	OnPath    func(kind, path string)                         // may block: holds the request (C03 overlapping pulls)
 	OnBody    func(kind string, n int, total int) (cutAt int) // -1: no cut; else call Cut after writing cutAt bytes
 	Cut       func()
 	// push recording
